@@ -1,7 +1,5 @@
 import Martian.PostProcess
-import Proofs.PostProcessDests
-import Proofs.PostProcessChecked
-import Proofs.PostProcessRecord
+import Martian.PostProcessDefs
 import Gen.Facts
 import Driver.Util
 
@@ -157,6 +155,12 @@ def renderFS (fs : FS) : String :=
   let ents := ps.filterMap fun p => (fs.get p).map fun e => strHex (renderPath p) ++ "=" ++ renderEntry e
   if ents.isEmpty then "." else ",".intercalate ents
 
+/-- the typed-map branch of `Fork.postProcess` as the working tree has it (regenerated) -/
+def postMapCur (da : Bool) (ps : Path) (params : List (String × String × Ty)) (outs : Path)
+    (kvs : List (String × J)) (fs : FS) : List (String × J) × FS :=
+  if Gen.postProcessMappedKeyCheck then postMapChecked da ps params outs kvs fs
+  else postMap da ps params outs kvs fs
+
 def handle (op : String) (args : List String) : Option String :=
   match op, args with
   | "run", [mode, da, ps, outs, params, value, fs] => do
@@ -193,14 +197,14 @@ def handle (op : String) (args : List String) : Option String :=
         let r := postArray da ps params outs 0 r1.1 r1.2
         some (J.arr r.1, r.2)
       | "m", params, .obj kvs =>
-        let r := postMap da ps params outs kvs fs
+        let r := postMapCur da ps params outs kvs fs
         some (J.obj r.1, r.2)
       | "m2", params, .obj kvs =>
-        let r := postMap da ps params outs kvs (postMap da ps params outs kvs fs).2
+        let r := postMapCur da ps params outs kvs (postMapCur da ps params outs kvs fs).2
         some (J.obj r.1, r.2)
       | "mm", params, .obj kvs =>
-        let r1 := postMap da ps params outs kvs fs
-        let r := postMap da ps params outs r1.1 r1.2
+        let r1 := postMapCur da ps params outs kvs fs
+        let r := postMapCur da ps params outs r1.1 r1.2
         some (J.obj r.1, r.2)
       | _, _, _ => none)
     pure (strHex (renderJ r.1) ++ "\t" ++ renderFS r.2)
@@ -210,6 +214,17 @@ def handle (op : String) (args : List String) : Option String :=
     match parse (emit v) with
     | some v' => pure ("some " ++ strHex (renderJ v'))
     | none => pure "none"
+  | "refused", [keys] => do
+    -- fork keys the repaired typed-map branch refuses with an error
+    let ks ← runP (do
+      let n ← pNat
+      let mut ks := []
+      for _ in [0:n] do
+        let k ← pStr
+        ks := k :: ks
+      pure ks.reverse) keys
+    pure (boolStr Gen.postProcessMappedKeyCheck ++ "\t" ++
+      ",".intercalate ((refusedKeys (ks.map fun k => (k, J.null))).map strHex))
   | "keydirs", [outs, keys] => do
     -- fork keys of a top-level call mapped over a typed map: `<n> {<hex key>}` ↦
     -- `<separable> <TAB> <hex dir>,…` and per key `legalName`
